@@ -36,7 +36,7 @@ def plan(tier, seed):
     recs = [r for r in corpus.load() if r["codemod"].startswith("pixee:") and r["input"] != r["expected"] and not r["files"]]
     by = collections.defaultdict(list)
     for r in recs: by[r["codemod"]].append(r)
-    per = 2 if tier == "quick" else 12
+    per = 2 if tier == "quick" else 4
     disc = []
     for cid, rs in sorted(by.items()):
         rs = sorted(rs, key=lambda r: (len(r["input"]), r["input"]))
@@ -87,9 +87,21 @@ def plan(tier, seed):
                     argv = ["{proj}", "--output", "{out}", "--codemod-include", j["cid"], "--path-" + mode, ",".join(pats)]
                     # the target directory as the user types it: canonical absolute path, relative to the cwd, ".", through a symlink, with a trailing slash
                     targets = ("abs", "rel", "dot", "symlink", "trailing-slash", "dotdot")
-                    for tgt in ([rnd.choice(targets)] if tier == "quick" else (targets if spell != "{abs}:{n}" else ("abs", "trailing-slash"))):
+                    for tgt in ([rnd.choice(targets)] if tier == "quick" else (rnd.sample(targets, 2) if spell != "{abs}:{n}" else ("abs",))):
                         if spell == "{abs}:{n}" and tgt not in ("abs", "trailing-slash"): tgt = "abs"   # an absolute pattern presumes the canonical path
                         jobs.append(dict(base, id=f"{j['cid']}|{mode}|{sub}|{spell}|{tgt}", files={"pkg/code.py": b64(j["src"].encode())}, argv=argv, mode=mode, sub=sub, spell=spell, target=tgt, monitors={"snap": False}))
+        # one pattern list mixing spellings and a second file's entries, interleaved (a:2, other:1, a:6 ...): every entry counts, whatever its neighbours
+        full = tuple(range(K))
+        for mode in ("exclude", "include"):
+            for q in range(1 if tier == "quick" else 3):
+                sub = full if q == 0 else tuple(sorted(rnd.sample(range(K), 2)))
+                sp = [rnd.choice(spellings[:3]) for _ in sub]
+                if len(sub) >= 3: sp[2] = sp[0]                               # the same path spelling comes back after a different one
+                pats = [s_.replace("{n}", str(sites[i])) for s_, i in zip(sp, sub)]
+                pats.insert(1, "pkg/other.py:1")
+                if rnd.random() < 0.5: pats.insert(rnd.randint(0, len(pats)), "pkg/other.py:2")
+                argv = ["{proj}", "--output", "{out}", "--codemod-include", j["cid"], "--path-" + mode, ",".join(pats)]
+                jobs.append(dict(base, id=f"{j['cid']}|{mode}|{sub}|interleaved{q}|{j['id']}", files={"pkg/code.py": b64(j["src"].encode()), "pkg/other.py": b64(b"y = 1\nz = 2\n")}, argv=argv, mode=mode, sub=sub, spell="pkg/code.py:{n}", interleaved=True, target="abs", monitors={"snap": False}))
     return jobs
 
 def site_text(text, i):
@@ -129,6 +141,7 @@ def finalize(stats, counters):
         if r["kind"] == "change-line-mismatch": key = f"change-line-mismatch/{r['cm']}"
         elif r["cm"] in diag_fail: key = f"line-filter-not-applied/{r['cm']}"
         elif r["filter_lost"]: key = f"line-pattern-not-matched/{r['spell']}-spelling" + ("" if r["job"].get("target", "abs") == "abs" else "/target-" + r["job"]["target"])          # the pattern never reached the transformer
+        elif r["job"].get("interleaved"): key = f"{r['kind']}/interleaved-pattern-list"
         else: key = f"{r['kind']}/{r['cm']}/{r['spell']}-spelling" + ("" if r["job"].get("target", "abs") == "abs" else "/target-" + r["job"]["target"])
         out.append(Violation("C13", key, r["what"], r["w"], jobs=[r["job"]]))
     extra = {"codemods_failing_a_diagnostic_case": sorted(diag_fail), "seeds_left_unjudged": dict(SKIPPED)}
